@@ -269,6 +269,9 @@ def gen_fatal_fault(rng, tidx, spec, cfg, kinds=None):
             f['exc'] = rng.choice(['conn', 'readtimeout', 'timeout'])
         return [f]
     if k == 'src':
+        if spec['src'] == 'path' and rng.random() < 0.2:
+            return [{'site': 'fs', 'op': 'getsize', 'path': '/d/up%d' % tidx,
+                     'nth': rng.randint(0, 2), 'exc': rng.choice(['oserror', 'eio'])}]
         if spec['src'] == 'path':
             return [{'site': 'fs', 'op': 'read', 'path': '/d/up%d' % tidx,
                      'nth': rng.randint(0, 3), 'exc': 'oserror'}]
@@ -832,7 +835,45 @@ def gen_C16(rng):
 
 def gen_C13(rng):
     """End-to-end transfers through a manager with max_bandwidth set."""
-    if rng.random() < 0.25:
+    r0 = rng.random()
+    if r0 < 0.12:
+        # two managers built from ONE TransferConfig object: the limit and its
+        # bookkeeping are per manager, so whatever the other manager moves, a
+        # single body below the batching threshold on this manager (charged
+        # once, at close, to a bucket that has seen nothing yet) is never delayed
+        sc = base(rng, [('upload', 1)], nmax=1, short_reads=True, maxsize=15)
+        cfg = sc['config']
+        thr = 16
+        cfg['multipart_threshold'] = 64
+        cfg['multipart_chunksize'] = 64
+        cfg['max_bandwidth'] = rng.choice([8, 16, 64])
+        main = sc['transfers'][0]
+        main['size'] = rng.randint(1, thr - 1)
+        for sub in main['subs']:
+            if sub.get('provide_size') is not None:
+                sub['provide_size'] = main['size']
+        for _ in range(rng.randint(1, 3)):
+            st = gen_transfer(rng, cfg, [('upload', 2), ('download', 2)])
+            st['size'] = rng.randint(3 * thr, 8 * thr)
+            st['mgr'] = 1
+            for sub in st['subs']:
+                if sub.get('provide_size') is not None:
+                    sub['provide_size'] = st['size']
+            sc['transfers'].append(st)
+        n = len(sc['transfers'])
+        sc['knobs']['sibling'] = 'traffic'
+        sc['knobs']['bw_threshold'] = thr
+        sc['knobs']['latency'] = 'none'
+        sc['knobs']['pre_read'] = False
+        sc['knobs']['io_chunk'] = rng.randint(4, 16)
+        est = est_steps(sc['transfers'], cfg)
+        sc['driver'] = [['submit', i] for i in range(1, n)] + \
+            [['wait_step', rng.randint(0, est)], ['submit', 0]] + \
+            [['result', i] for i in range(n)] + [['sibling_shutdown'], ['shutdown']]
+        sc['strategy'] = gen_strategy(rng, est)
+        sc['max_steps'] = 80 * est + 40000
+        return sc
+    if r0 < 0.37:
         # many bodies smaller than the limiter's batching threshold, one request
         # at a time: every one of them is charged only when it is closed, and
         # together they must still respect the limit
@@ -947,10 +988,60 @@ def io_pressure(rng):
     return sc
 
 
+def bandwidth_isolation(rng):
+    """Transfers sharing one manager's bandwidth limiter: one with several
+    parts throttled at once is cancelled or fails, the others - and a fresh one
+    afterwards - must neither fail nor be affected."""
+    sc = base(rng, [('upload', 2), ('download', 2)], nmax=2, short_reads=True, maxsize=30)
+    cfg = sc['config']
+    cfg['max_bandwidth'] = rng.choice([8, 16, 32])
+    cfg['max_request_concurrency'] = rng.choice([3, 4])
+    cfg['multipart_chunksize'] = rng.randint(6, 12)
+    cfg['multipart_threshold'] = rng.randint(6, 12)
+    cfg['io_chunksize'] = rng.randint(2, 4)
+    cfg['max_request_queue_size'] = 1000
+    cfg['max_in_memory_upload_chunks'] = 5
+    cfg['max_in_memory_download_chunks'] = 5
+    sc['knobs']['bw_threshold'] = rng.choice([1, 2, 4])
+    sc['knobs']['sock_chunk'] = rng.randint(2, 4)
+    sc['knobs']['sign_chunk'] = 1 << 20
+    sc['knobs']['latency'] = 'none'
+    sc['knobs']['pre_read'] = False
+    while len(sc['transfers']) < 2:
+        sc['transfers'].append(gen_transfer(rng, cfg, [('upload', 2), ('download', 2)]))
+    for k, t in enumerate(sc['transfers']):
+        parts = rng.randint(3, 5) if k == 0 else rng.randint(1, 3)
+        t['size'] = cfg['multipart_chunksize'] * parts + rng.randint(0, 3)
+        for sub in t['subs']:
+            if sub.get('provide_size') is not None:
+                sub['provide_size'] = t['size']
+    n = len(sc['transfers'])
+    est = est_steps(sc['transfers'], cfg)
+    script = [['submit', i] for i in range(n)]
+    if rng.random() < 0.7:
+        script += [['wait_step', rng.randint(est // 8, est)], ['cancel', 0, rng.random() < 0.5]]
+    else:
+        sc['faults'] += gen_fatal_fault(rng, 0, sc['transfers'][0], cfg, ['s3', 'stream_fatal'])
+        _dedupe_stream(sc)
+    script += [['result', i] for i in range(n)]
+    ft = gen_transfer(rng, cfg, [('upload', 2), ('download', 1)])
+    ft['size'] = rng.randint(1, 3 * cfg['multipart_chunksize'])
+    for sub in ft['subs']:
+        if sub.get('provide_size') is not None:
+            sub['provide_size'] = ft['size']
+    script += [['fresh', ft], ['shutdown']]
+    sc['driver'] = script
+    sc['strategy'] = gen_strategy(rng, est)
+    sc['max_steps'] = 80 * est + 40000
+    return sc
+
+
 def gen_C18(rng):
     r0 = rng.random()
     if r0 < 0.15:
         return io_pressure(rng)
+    if r0 > 0.88:
+        return bandwidth_isolation(rng)
     if r0 < 0.35:
         # stream transfers sharing the in-memory windows (parts finishing out of
         # order, one transfer possibly failing or cancelled), then a fresh
@@ -1026,9 +1117,25 @@ GENERATORS = {
 }
 
 
+def _long_names(rng, sc):
+    """Some file destinations get a base name at or near NAME_MAX (255): the
+    temporary name must still differ from the destination."""
+    for i, t in enumerate(sc['transfers']):
+        if t.get('type') == 'download' and t.get('dst') == 'path' and rng.random() < 0.08:
+            L = rng.choice([246, 247, 250, 254, 255, 255])
+            base = 'down%d_' % i
+            long = '/d/' + base + 'n' * (L - len(base))
+            t['path_override'] = long
+            for f in sc['faults']:
+                for k in ('dest', 'path'):
+                    if f.get(k) == '/d/down%d' % i:
+                        f[k] = long
+
+
 def generate(prop, seed):
     rng = random.Random(seed)
     sc = GENERATORS[prop](rng)
+    _long_names(rng, sc)
     sc['prop'] = prop
     sc['seed'] = seed
     sc['sched_seed'] = rng.randrange(1 << 62)
